@@ -3,7 +3,7 @@
 P="$1"; shift
 git -C /repo apply "$P" || { echo "patch does not apply"; exit 3; }
 for c in "$@"; do
-  out=$(/verif/check "$c" 2>&1); code=$?
+  out=$(VERIF_NO_EVIDENCE=1 /verif/check "$c" 2>&1); code=$?
   echo "== $c exit=$code"; echo "$out" | grep -E "^/repo|VIOLATION|ANALYSIS-ERROR" | head -8
 done
 git -C /repo checkout -- . 
